@@ -9,7 +9,7 @@
 use crate::util::*;
 use crypto_bigint::{BitOps, BoxedUint, NonZero, SquareRoot, Uint};
 
-const ROUNDS_CAP: u32 = 100_000;
+const ROUNDS_CAP: u32 = 200;
 
 fn fixed<const N: usize>(form: &str, x: &str) -> Option<String> {
     let x = arg!(uint::<N>(x));
